@@ -398,6 +398,11 @@ def _child_same(task):
                 r["copy"] = enc(vector(rec))
                 if p == PICKLE_PROTOCOLS[-1]:
                     kept.append((r, rec))
+                    ok2, rec2 = _safe(lambda: pickle.loads(pickle.dumps(rec, protocol=p)))
+                    if ok2:
+                        r["copy_gen2"] = enc(vector(rec2))
+                    else:
+                        r["gen2_error"] = str(rec2)
         # (c) copy / deepcopy
         for name, fn in (("copy", copy.copy), ("deepcopy", copy.deepcopy)):
             ok, rec = _safe(fn, ann)
@@ -495,6 +500,11 @@ def _child_cp_same(task):
         if r.get("identical"):
             r["copy"] = it["orig_after_loads"]  # the copy IS the original object
         it["mini_ok"] = can.mini_ok()
+    # dumping / loading LATER annotations must not change what an EARLIER original accepts
+    for it, ann in todo:
+        later = enc(vector(ann))
+        if later != it["orig_after_loads"]:
+            it["orig_after_later_cases"] = later
     return dict(items=items, fingerprint_end=can.full())
 
 
@@ -525,6 +535,11 @@ def _child_load(task):
             it["routes"][route] = dict(copy=enc(vector(rec))) if ok else dict(load=rec)
             if ok and route == f"pickle{PICKLE_PROTOCOLS[-1]}":
                 kept.append((it["routes"][route], rec))
+                ok2, rec2 = _safe(lambda: pickle.loads(pickle.dumps(rec)))
+                if ok2:
+                    it["routes"][route]["copy_gen2"] = enc(vector(rec2))
+                else:
+                    it["routes"][route]["gen2_error"] = str(rec2)
         it["mini_ok"] = can.mini_ok()
     for r, rec in kept:
         later = enc(vector(rec))
@@ -763,6 +778,10 @@ def _job(job):
                 compare(spec, route, "same", "copy", ref, r["copy"], nt)
                 if "copy_later" in r:
                     compare(spec, route, "same", "copy-after-later-loads", ref, r["copy_later"], nt)
+                if "copy_gen2" in r:
+                    compare(spec, route, "same", "copy-second-generation", ref, r["copy_gen2"], nt)
+                if "gen2_error" in r:
+                    fail(spec, route, "same", "copy-second-generation", "load-error", f"the loaded copy could not be pickled and loaded again: {r['gen2_error']}", nt)
             if orig_bad:
                 # failure path, cap reached: report without attribution to a single route
                 stats["unattributed_original_changes"] += 1
@@ -819,6 +838,10 @@ def _job(job):
                 compare(spec, route, "xproc", "copy", ref, r["copy"], nts[it["i"]])
                 if "copy_later" in r:
                     compare(spec, route, "xproc", "copy-after-later-loads", ref, r["copy_later"], nts[it["i"]])
+                if "copy_gen2" in r:
+                    compare(spec, route, "xproc", "copy-second-generation", ref, r["copy_gen2"], nts[it["i"]])
+                if "gen2_error" in r:
+                    fail(spec, route, "xproc", "copy-second-generation", "load-error", f"the loaded copy could not be pickled and loaded again: {r['gen2_error']}", nts[it["i"]])
         if not it["mini_ok"]:
             viols.append(_mk_violation(spec, "pickle-or-copy", "xproc", "bystander", "differs", "an unrelated annotation changed its acceptance after loading this one", batch=prefix(it["i"])))
     if l_out["fingerprint_end"] != fp:
@@ -845,6 +868,8 @@ def _job(job):
         # original after dumps alone == what a process that only SENDS the annotation sees
         compare(spec, "cloudpickle", "xproc", "original", ref, it["orig_after_dumps"], nt)
         compare(spec, "cloudpickle", "same", "original", ref, it["orig_after_loads"], nt)
+        if "orig_after_later_cases" in it:
+            compare(spec, "cloudpickle", "same", "original-after-later-cases", ref, it["orig_after_later_cases"], nt)
         if not it["mini_ok"]:
             viols.append(_mk_violation(spec, "cloudpickle", "same", "bystander", "differs", "an annotation that was not serialised changed its acceptance after this case", batch=prefix(it["i"])))
         if "cloudpickle" in it["blobs"]:
